@@ -224,6 +224,10 @@ func c10(args []string) int {
 		jobs[i] = &histJob{id: 200000 + i + 1, spec: sp}
 	}
 	runAll(jobs, 200)
+	// sequences of requests re-using the pooled downStream object (gauges per request, as if alone)
+	if rc := seqPart(run, 820000, c10Finder); rc != 0 {
+		return rc
+	}
 	// groups (finder only: the shared counter is what the property is about)
 	initEnv()
 	ng := 0
